@@ -889,7 +889,7 @@ def _check_index_array(idx, n):
     e = idx._elem(*vs)
     ok = forall(vs, z3.Implies(rng, z3.And(e >= -nt, e < nt)))
     c = idx.meta.get("values_in")
-    if c is not None and (c[1] is n or z3.simplify(dim_term(c[1])).eq(z3.simplify(nt))):
+    if c is not None and (c[1] is n or (c[1] is not None and z3.simplify(dim_term(c[1])).eq(z3.simplify(nt)))):
         return
     if not Ctx.cur.branch(ok):
         raise IndexError("index out of bounds")
